@@ -70,6 +70,9 @@ def classify(run, bad):
             return "attempt:portless-backend-not-dialled"
         return "attempt:%s:%s" % (run[0].get("strategy") or "default", bad["result"])
     if ev == "count":
+        prev = [r for r in run if r.get("seq", 0) < bad.get("seq", 0) and r.get("ev") in ("attempt", "abort", "close", "opened")]
+        if prev and prev[-1]["ev"] == "abort":
+            return kind + ":count-after-backend-reset"
         return kind + ":count"
     if ev == "obs":
         return kind + ":count-read"
@@ -128,6 +131,8 @@ def run(ctx):
     missing = [g for g in GATES if not st["gate_arrivals"].get(g)]
     if missing:
         raise vlib.ToolError("hook_missing: gates never reached: %s" % missing)
+    if not st["backend_reset_after_accept"]:
+        raise vlib.ToolError("fault 'backend resets after accepting' never injected: %s" % st)
     if not st["attempts_with_retries"] or not st["attempts_all_failed"]:
         raise vlib.ToolError("scenarios never exercised retries / exhaustion: %s" % st)
 
@@ -153,6 +158,7 @@ def run(ctx):
         "attempts_all_backends_failed": st["attempts_all_failed"],
         "lists_with_same_backend_twice": st["lists_with_same_backend_twice"],
         "runaway_attempts": st["runaway_attempts"],
+        "backend_reset_after_accept": st["backend_reset_after_accept"],
         "concurrent_batches": st["concurrent_batches"],
         "concurrent_connections": st["concurrent_connections"],
         "count_schedules_forced": st["count_schedules"],
